@@ -191,6 +191,14 @@ def proof_step(pid, bindir, extra_targets=()):
             problems.append("lake build failed for Props." + pid + ": " + " | ".join(errs))
             return dict(obligations=0, discharged=0, theorems={}, problems=problems, log=log)
         aud = audit_props(pid)
+        # thorough tier: Lean's independent re-checker replays the compiled proofs of the property's module(s)
+        if os.environ.get("VERIF_TIER_RUN") == "thorough":
+            for mod in [pid] + EXTRA_PROPS.get(pid, []):
+                r = run(["lake", "env", "leanchecker", "Gobptree.Props." + mod], cwd=LEAN)
+                if r.returncode != 0:
+                    problems.append("leanchecker rejects Gobptree.Props.%s: %s" % (mod, r.stdout[-400:]))
+                else:
+                    aud.setdefault("leanchecker", []).append("Gobptree.Props." + mod)
     bad = grep_forbidden(pid)
     if bad:
         problems.append("forbidden constructs in Lean sources: " + "; ".join(bad[:6]))
@@ -205,7 +213,13 @@ def proof_step(pid, bindir, extra_targets=()):
         problems.append("elaboration of Props/%s.lean reported errors" % pid)
     if not thms:
         problems.append("no audited theorem found in Props/%s.lean" % pid)
-    return dict(obligations=len(thms), discharged=discharged, theorems=thms, problems=problems, log=aud["log"])
+    global LAST_LEANCHECKER
+    LAST_LEANCHECKER = aud.get("leanchecker", [])
+    return dict(obligations=len(thms), discharged=discharged, theorems=thms, problems=problems, log=aud["log"],
+                leanchecker=aud.get("leanchecker", []))
+
+
+LAST_LEANCHECKER = []
 
 
 MODEL = os.path.join(LEAN, ".lake", "build", "bin", "model")
@@ -401,6 +415,8 @@ def write_evidence(pid, tier, level, coverage, wall, violations, assumptions):
     coverage = dict(coverage)
     if pid in EXPLANATIONS:
         coverage["explanation"] = EXPLANATIONS[pid]
+    if LAST_LEANCHECKER:
+        coverage["leanchecker_rechecked_modules"] = list(LAST_LEANCHECKER)
     # evidence/ describes runs against /repo only; a run against another tree (seed-verify's
     # scratch worktree, VERIF_REPO) writes to evidence-scratch/ (git-ignored)
     evdir = "evidence" if os.path.realpath(REPO) == "/repo" else "evidence-scratch"
